@@ -489,15 +489,7 @@ func (c *Ctx) ruleB1() {
 		host := topLevel(s.fn)
 		fk := fnKey(s.fn)
 		// the consumer: the function (closure) that reads sub.Out()
-		d := derived([]ssa.Value{s.call.Value()}, flowOpts{intoClosures: true})
-		var consumer *ssa.Function
-		for _, g := range withClosures(host) {
-			eachCall(g, func(call ssa.CallInstruction) {
-				if methodName(call) == "Out" && call.Common().IsInvoke() && d[call.Common().Value] {
-					consumer = g
-				}
-			})
-		}
+		consumer := c.findOutConsumer([]ssa.Value{s.call.Value()}, host, 0)
 		if consumer == nil {
 			c.undecided("B1", fk+"→Subscribe#consumer", s.call.Pos(), "the loop consuming this subscription was not found")
 			continue
@@ -739,9 +731,6 @@ func (c *Ctx) ruleB3() {
 				ctxParam = p
 			}
 		}
-		if ctxParam == nil {
-			continue
-		}
 		// the receiver owns a context too?
 		hasOwnerCtx := false
 		if rn := recvNamed(f); rn != nil {
@@ -757,6 +746,10 @@ func (c *Ctx) ruleB3() {
 			continue
 		}
 		n++
+		if ctxParam == nil {
+			c.ok("B3", fnKey(f)+"#table-entry-context", ins.Pos(), "the function filling the shared table has no per-call context in scope")
+			continue
+		}
 		dctx := derived([]ssa.Value{ctxParam}, flowOpts{throughCalls: true, intoClosures: true})
 		cons := fnKey(f) + "#table-entry-context"
 		// the value stored in the table, or a goroutine started here, uses a context derived from the call's context
@@ -962,6 +955,48 @@ func (c *Ctx) ruleP3() {
 				}
 			})
 			if put == nil {
+				// the head may be persisted by a caller, from what this helper returns
+				for _, g := range c.RepoFns {
+					if c.isTestFile(g.Pos()) {
+						continue
+					}
+					eachCall(g, func(cs ssa.CallInstruction) {
+						if _, isGo := cs.(*ssa.Go); isGo || cs.Common().StaticCallee() != f || cs.Value() == nil {
+							return
+						}
+						dg := derived([]ssa.Value{cs.Value()}, flowOpts{throughCalls: true})
+						var gput ssa.CallInstruction
+						eachCall(g, func(pc ssa.CallInstruction) {
+							if _, isGo := pc.(*ssa.Go); isGo || !c.isSite(kPut, pc) {
+								return
+							}
+							for _, a := range pc.Common().Args {
+								if dg[a] {
+									gput = pc
+								}
+							}
+						})
+						if gput == nil {
+							return
+						}
+						if !c.isControlFn(g) {
+							n++
+						}
+						lsg := locksets(g)
+						common := meet(lsg[cs], lsg[gput])
+						for k, m := range common {
+							if m != "W" {
+								delete(common, k)
+							}
+						}
+						cons := fnKey(g) + "→" + f.Name() + "…Put#atomic"
+						if len(common) == 0 {
+							c.bad("P3", cons, gput.Pos(), "the head is produced by Append inside "+fnKey(f)+" (under that helper's own lock, released when it returns) and persisted here afterwards with no lock held across the two: with two concurrent writers the one that appended FIRST can persist LAST, leaving the cached local head pointing at the older entry; after a restart the newer acknowledged entry is unreachable")
+						} else {
+							c.ok("P3", cons, gput.Pos(), "the helper that appends and the Put that persists its result are in one critical section of "+common.String())
+						}
+					})
+				}
 				continue
 			}
 			if !c.isControlFn(f) {
@@ -1008,4 +1043,46 @@ func (c *Ctx) ruleP3() {
 		}
 	}
 	c.floor("P3", "append-then-persist sites", n, 1)
+}
+
+// findOutConsumer: the function (closure, or repo callee the subscription is handed to —
+// possibly with `go`) that reads sub.Out().
+func (c *Ctx) findOutConsumer(seeds []ssa.Value, f *ssa.Function, depth int) *ssa.Function {
+	if f == nil || depth > 3 {
+		return nil
+	}
+	d := derived(seeds, flowOpts{intoClosures: true})
+	var consumer *ssa.Function
+	type next struct {
+		seeds []ssa.Value
+		fn    *ssa.Function
+	}
+	var nexts []next
+	for _, g := range withClosures(f) {
+		eachCall(g, func(call ssa.CallInstruction) {
+			if methodName(call) == "Out" && call.Common().IsInvoke() && d[call.Common().Value] {
+				consumer = g
+			}
+			if h := call.Common().StaticCallee(); h != nil && h.Blocks != nil && h.Pkg != nil && inRepo(h.Pkg.Pkg) && topLevel(h) != f {
+				var ps []ssa.Value
+				for i, a := range call.Common().Args {
+					if d[a] && i < len(h.Params) {
+						ps = append(ps, h.Params[i])
+					}
+				}
+				if len(ps) > 0 {
+					nexts = append(nexts, next{ps, h})
+				}
+			}
+		})
+	}
+	if consumer != nil {
+		return consumer
+	}
+	for _, n := range nexts {
+		if r := c.findOutConsumer(n.seeds, n.fn, depth+1); r != nil {
+			return r
+		}
+	}
+	return nil
 }
